@@ -44,7 +44,14 @@ impl<'a> ResourceRecordManager<'a> {
         let exp_info = ExpirationInfo::new(ttl);
         match self.resources.get_mut(&key) {
             Some(resources) => {
-                resources.insert(resource, ResourceRecordType::Cached(exp_info));
+                // a copy received from the network must not turn a locally registered record
+                // into an expiring one
+                if !matches!(
+                    resources.get(&resource),
+                    Some(ResourceRecordType::Authoritative)
+                ) {
+                    resources.insert(resource, ResourceRecordType::Cached(exp_info));
+                }
             }
             None => {
                 let mut resources = HashMap::new();
